@@ -22,6 +22,8 @@ meta = json.load(open(os.path.join(src, "meta.json")))
 demo_cmd = meta.get("demo_cmd", "")
 if "&&" in demo_cmd and demo_cmd.strip().startswith("cd "):
     demo_cmd = demo_cmd.split("&&", 1)[1].strip()
+# some agents put the (already performed) "git apply <demo>" step into the command: drop such steps
+demo_cmd = " && ".join(part.strip() for part in demo_cmd.split("&&") if not part.strip().startswith("git apply"))
 res = {"property": prop, "agent_meta": meta}
 def clean():
     sh("git checkout -- . && git clean -fdq -- contracts packages", cwd=wt)
